@@ -88,38 +88,6 @@ def has_selfproduct(t):
     return t[0] != "**" and has_selfproduct(t[2])
 
 
-def ev_ordered(t):
-    """The library's convention: term identity by ordered factor list."""
-    k = t[0]
-    if k == "var":
-        return [(t[1],)]
-    u = ra.uniq
-    if k == "+":
-        return u(ev_ordered(t[1]) + ev_ordered(t[2]))
-    if k == "-":
-        b = ev_ordered(t[2])
-        return [x for x in ev_ordered(t[1]) if x not in b]
-    a = ev_ordered(t[1])
-    if k == "**":
-        out = list(a)
-        for i in range(2, t[2] + 1):
-            for c in itertools.combinations(a, i):
-                tt = ()
-                for x in c:
-                    tt = ra.tjoin(tt, x)
-                out.append(tt)
-        return u(out)
-    b = ev_ordered(t[2])
-    if k == ":":
-        return u([ra.tjoin(x, y) for x in a for y in b])
-    if k == "*":
-        return u(a + b + [ra.tjoin(x, y) for x in a for y in b])
-    if k == "/":
-        allf = tuple(u([f for x in a for f in x]))
-        return u(a + [ra.tjoin(allf, y) for y in b])
-    raise ValueError(k)
-
-
 def empty_slash_left(t):
     """`e / b` with e expanding to no term at all: "(all factors of e):b" is not defined by the statement."""
     if t[0] == "var":
@@ -203,7 +171,7 @@ def judge(ctx, case):
         return
     # second admissible reading: a subtraction that names an existing term with its factors in
     # another order may follow ordered identity (a:b - b:a keeps a:b)
-    alt_c, alt_g = _rhs_ordered(items)
+    alt_c, alt_g = ra.rhs_ordered(items)
     if ra.canon_model(alt_c, alt_g) == got:
         ctx.classes["either_or:ordered_identity_subtraction"] += 1
         return
@@ -240,41 +208,10 @@ def localise(items):
             except Exception:  # pylint: disable=broad-except
                 continue
             want = ra.canon_model([()] + ra.ev(sub), [])
-            if ra.canon_model(c, g) != want and ra.canon_model([()] + ev_ordered(sub), []) != ra.canon_model(c, g):
+            if ra.canon_model(c, g) != want and ra.canon_model([()] + ra.ev_ordered(sub), []) != ra.canon_model(c, g):
                 r = "n" if sub[0] == "**" else _kind(sub[2])
                 return f"{sub[0]}({_kind(sub[1])},{r})"
     return "composition"
-
-
-def _rhs_ordered(items):
-    common = [()]
-    group = []
-    for sign, it in items:
-        if it[0] == "lit":
-            v = it[1]
-            if sign == "+" and v == "1":
-                if () not in common:
-                    common.append(())
-            else:
-                common = [t for t in common if t != ()]
-        elif it[0] == "grp":
-            lead, e, g = it[1], it[2], it[3]
-            eff = ev_ordered(e) if e is not None else []
-            if lead in (None, "1"):
-                eff = [()] + eff
-            for p in [(x, y) for x in eff for y in ev_ordered(g)]:
-                if sign == "+":
-                    if p not in group:
-                        group.append(p)
-                else:
-                    group = [q for q in group if q != p]
-        else:
-            terms = ev_ordered(it)
-            if sign == "+":
-                common = ra.uniq(common + terms)
-            else:
-                common = [t for t in common if t not in terms]
-    return common, group
 
 
 def _tup(x):
